@@ -76,6 +76,11 @@ def configs(tier, seed):
                 continue
             dim = 2 if op == "matmul" or (op in ("add", "sub") and (k + j + seed) % 2 == 0) else 0
             cfgs.append(dict(name=f"pair{k} {op} pol dim={dim}", kind="binary", op=op, rat="", dim=dim, **base))
+            if op in ("mul", "div") and pa + pb <= 3 and k < len(PAIRS):
+                # a vector-valued curve times / over a scalar-valued one (what the library itself needs for rational curves)
+                forms = ("vec*scalar", "scalar*vec", "vec*vec") if op == "mul" else ("vec/scalar",)
+                cfgs.append(dict(name=f"pair{k} {op} {forms[(k + seed) % len(forms)]}", kind="binary", op=op, rat="", dim=0,
+                                 mixed=forms[(k + seed) % len(forms)], **base))
             if op != "matmul" and (k < len(PAIRS) or (k + j + seed) % 3 == 0) and pa + pb <= 3:
                 rat = ("A", "B", "AB")[(k + j) % 3]
                 cfgs.append(dict(name=f"pair{k} {op} rat={rat} dim=0", kind="binary", op=op, rat=rat, dim=0, **base))
@@ -136,14 +141,19 @@ def body(env, cfg):
     va, vb = [F(v) for v in cfg["va"]], [F(v) for v in cfg["vb"]]
     kva, kvb = KV(va, cfg["ma"]), KV(vb, cfg["mb"])
     dim, op = cfg["dim"], cfg["op"]
-    P = make_points(env, "P", kva.n, dim)
+    mixed = cfg.get("mixed", "")
+    dimA = 2 if mixed.startswith("vec") else dim
+    dimB = 2 if mixed.endswith("vec") else dim
+    if mixed:
+        dim = dimA
+    P = make_points(env, "P", kva.n, dimA)
     WA = conc_weights(kva.n, 1) if "A" in cfg["rat"] else None
     A = Curve(list(kva.U), P, WA)
     sa = kmode.snapshot(A)
     pts = kmode.breakpoints(kva, kvb if cfg["kind"] == "binary" else kva)
 
     if cfg["kind"] == "binary":
-        Q = make_points(env, "Q", kvb.n, dim)
+        Q = make_points(env, "Q", kvb.n, dimB if mixed else dim)
         WB = conc_weights(kvb.n, 1 if "=" in cfg["rat"] else 2) if "B" in cfg["rat"] else None
         if op == "div":
             for q in Q:
@@ -169,6 +179,9 @@ def body(env, cfg):
                 exp = ([x * bd + y * ad for x, y in zip(an, bn)], ad * bd)
             elif op == "sub":
                 exp = ([x * bd - y * ad for x, y in zip(an, bn)], ad * bd)
+            elif op == "mul" and mixed:
+                m = max(len(an), len(bn))
+                exp = ([an[c % len(an)] * bn[c % len(bn)] for c in range(m)], ad * bd)
             elif op == "mul":
                 exp = ([x * y for x, y in zip(an, bn)], ad * bd)
             elif op == "matmul":
